@@ -228,6 +228,8 @@ func vh_C05_definition() {
 // behaves as in an interpreter that never saw the failing text.
 var vC05BadTexts = []string{
 	`(def b (+ a 1`, `(def b [1 2`, `(def b "abc`, `{a = `, `(def b 1))`, `(def b 'ab')`, `(def b "a\qz")`, "(def b `raw", `/* open comment`, `(def b ]`,
+	// failures in the middle of each lexer sub-state that accumulates something: numeric escapes in strings and chars, number spellings
+	`(def b "ab\x4g")`, `(def b "\u12zz")`, `(def b "\U0001zzzz")`, `(def b "q\x4`, `(def b '\x4g')`, `(def b '\u00`, `(def b 0x1g)`, `(def b 1e+)`, `(def b 12ab)`, `(def b 0b12)`, `(def b 0o9)`, `(def b 3UL)`,
 }
 
 func vh_C05_parse() {
@@ -250,7 +252,7 @@ func vh_C05_parse() {
 	vAssert(err != nil, "parse-failure-is-reported")
 	vC04AtRest(env, "after-parse-failure")
 	// follow-ups, compared with the twin that never saw the bad text
-	for _, txt := range []string{`(def d 10) (+ d a)`, `b`, `(+ a 1)`, ``} {
+	for _, txt := range []string{`(def d 10) (+ d a)`, `b`, `(+ a 1)`, ``, `"\x41\u0042"`, `'\x43'`, `(+ 0x10 0b11 0o7 1e1)`, `"\U00000044z"`} {
 		r1, e1, p1 := vEvalString(env, txt)
 		r2, e2, p2 := vEvalString(twin, txt)
 		vAssert(!p1 && !p2, "followup-no-panic")
